@@ -413,7 +413,7 @@ func (p *Prog) buildCallGraph() {
 		fn := extra[0]
 		extra = extra[1:]
 		p.Funcs = append(p.Funcs, fn)
-		n := p.FuncName(fn) + "#" + strings.Fields(fn.Synthetic+" synthetic")[0]
+		n := p.FuncName(fn) + "#" + strings.Fields(fn.Synthetic + " synthetic")[0]
 		if _, dup := p.byName[n]; !dup {
 			p.byName[n] = fn
 		}
